@@ -55,7 +55,7 @@ def expected_config(setting):
     }
 
 
-def run_child(setting, timeout=120):
+def run_child(setting, timeout=300):
     e = {k: v for k, v in os.environ.items() if not k.startswith("PANDERA_")}
     for k, v in setting.items():
         if v is not None:
